@@ -164,6 +164,25 @@ def blobs_data(seed=0, n=60, d=2):
     return np.clip(np.vstack([a, b]), 0, 1), rng.dirichlet(np.ones(n))
 
 
+def ckpt_kwargs(op, smp):
+    """operations whose name contains 'ckpt' write a periodic checkpoint at every iteration (scratch directory, removed afterwards)."""
+    if "ckpt" not in op:
+        return {}
+    if not getattr(smp, "_verif_tmp", None):
+        import tempfile
+        from pathlib import Path
+        smp._verif_tmp = tempfile.mkdtemp(prefix="vf_c09_")
+        object.__setattr__(smp._core.config, "output_dir", Path(smp._verif_tmp))
+    return {"save_every": 1, "t0": 0}
+
+
+def ckpt_cleanup(smp):
+    import shutil
+    if getattr(smp, "_verif_tmp", None):
+        shutil.rmtree(smp._verif_tmp, ignore_errors=True)
+        smp._verif_tmp = None
+
+
 def make_noreset(op):
     def run_op(stub):
         X, w = blobs_data()
@@ -206,9 +225,10 @@ def make_noreset(op):
                 stub.term = stub.s_after_construction
                 smp._core._initialize_fresh()
                 for _ in range(6):
-                    smp.sample()
+                    smp.sample(**ckpt_kwargs(op, smp))
                     if smp.state.get_current("beta") > 0.0 and _ >= 3:
                         break
+                ckpt_cleanup(smp)
                 return smp
         return None
 
@@ -301,9 +321,10 @@ def make_noreset(op):
                         np.random.seed = spy_seed  # only re-seeding *after* construction counts
                         smp._core._initialize_fresh()
                         for _ in range(6):
-                            smp.sample()
+                            smp.sample(**ckpt_kwargs(op, smp))
                             if smp.state.get_current("beta") > 0.0 and _ >= 3:
                                 break
+                        ckpt_cleanup(smp)
                 np.random.seed = real_seed
                 outs.append(np.random.rand(4).tolist())
         finally:
@@ -316,7 +337,7 @@ def make_noreset(op):
         if op.startswith("sampler-iterations") and seeds_seen:
             return {"reproduced": True, "signature": f"global-reseed:sampler-iteration", "payload": {"np.random.seed_calls_during_iterations": [str(x) for x in seeds_seen[:6]]},
                     "what": f"during Sampler.sample() the library called np.random.seed with {sorted(set(map(str, seeds_seen)))} "
-                            f"({len(seeds_seen)} times): every iteration after a clustering fit replays the same global stream"}
+                            f"({len(seeds_seen)} times): every iteration after such a call replays the same global stream"}
         return {"reproduced": same, "signature": f"global-reseed:{op}", "payload": {"draws_after_seed_1": outs[0], "draws_after_seed_2": outs[1]},
                 "what": f"after {op} started from np.random.seed(1) and from np.random.seed(2) the next global draws are "
                         f"{'identical' if same else 'different'}: {outs[0][:2]} vs {outs[1][:2]}"}
@@ -388,8 +409,9 @@ def make_seeding():
 def obligations(tier):
     ops = ["gmm-fit-default", "gmm-fit-random_state", "hier-fit-predict", "systematic-resample", "sampler-iterations-clustering-tpcn-mult",
            "sampler-iterations-seeded-clustering-rwm-syst", "sampler-iterations-seeded-noclustering-tpcn-mult",
-           "hier-fit-twice", "sampler-posterior-seeded"]
+           "hier-fit-twice", "sampler-posterior-seeded", "sampler-iterations-seeded-noclustering-rwm-mult-ckpt"]
     if tier == "thorough":
         ops += ["sampler-iterations-clustering-rwm-syst", "sampler-iterations-noclustering-tpcn-syst", "sampler-iterations-noclustering-rwm-mult",
-                "sampler-iterations-seeded-noclustering-tpcn-syst", "sampler-iterations-seeded-clustering-tpcn-mult"]
+                "sampler-iterations-seeded-noclustering-tpcn-syst", "sampler-iterations-seeded-clustering-tpcn-mult",
+                "sampler-iterations-clustering-tpcn-mult-ckpt", "sampler-iterations-seeded-clustering-tpcn-syst-ckpt"]
     return [make_noreset(o) for o in ops] + [make_seeding()]
